@@ -412,7 +412,9 @@ func (g *declGen) leaf(fs []string, intField string) D {
 		if which := g.t.Weighted("decl.dt.func", 3, 2, 2, 1); which > 0 {
 			// the functions that *parse* a date-time: text, layout, "the layout carries a zone" flag and
 			// the zones to read it in and to show it in are all arguments; every one of them counts
-			zone := func(l string) string { return g.t.Pick(l, "", "", "UTC", "America/New_York", "Asia/Tokyo") }
+			zone := func(l string) string {
+				return g.t.Pick(l, "", "", "UTC", "America/New_York", "america/new_york", "Asia/Tokyo", "ASIA/TOKYO")
+			}
 			switch which {
 			case 1:
 				return cf("dateTimeLayoutToRFC3339", D{"const": g.t.Pick("decl.dt.value", "2021-02-08 10:00:00", "2021-12-31 23:59:59")},
